@@ -40,13 +40,13 @@ def rib_clean_case(rng):
     return ";".join(ops + ["MR"])
 
 
-def rib_any_case(rng):
+def rib_any_case(rng, last="MRS"):
     """any pipeline history (BMP routers and BGP sessions sharing prefixes, withdrawals of anything, flaps), the RIB unit's counters
-    read at random points"""
+    read at random points (MR: code against model); the last read also against the descriptions of the metrics if `last` is MRS"""
     ops = pipegen.gen_case(rng, peers=[0, 3, 5, 6, 8], metrics=True, bgp=True, query_ops=False, length=(8, 40)).split(";")
     for _ in range(rng.range(1, 4)):
         ops.insert(rng.below(len(ops) + 1), "MR")
-    return ";".join(ops + ["MRS"])
+    return ";".join(ops + [last])
 
 
 # finding C15-6 (RIB unit counters), one history per face; generated last so that they are looked at after everything else
@@ -64,6 +64,8 @@ def gen_with_rib(rng, tier):
     for _ in range(250 if tier == "quick" else 6000):
         yield rib_clean_case(r2)
     for _ in range(250 if tier == "quick" else 6000):
+        yield rib_any_case(r2, "MR")     # code against model on every kind of history: nothing here can be shrunk into the finding
+    for _ in range(150 if tier == "quick" else 4000):
         yield rib_any_case(r2)
     yield from RIB_FINDING_CASES
 
